@@ -7,7 +7,7 @@ B=${VV_RB:-/verif/build/repo-asan}
 mkdir -p /verif/build
 exec 9>$B.lock
 flock 9
-FLAGS="-O1 -g1 -fno-omit-frame-pointer -fsanitize=address,undefined -fno-sanitize-recover=undefined -DVOTCA_VERIF"
+FLAGS="${VV_OPT:--O1} -g1 -fno-omit-frame-pointer -fsanitize=address,undefined -fno-sanitize-recover=undefined -DVOTCA_VERIF"
 if [ ! -f $B/build.ninja ]; then
   cmake -G Ninja -S $SRC -B $B -DCMAKE_BUILD_TYPE=None \
     -DCMAKE_CXX_FLAGS="$FLAGS" -DCMAKE_EXE_LINKER_FLAGS="-fsanitize=address,undefined" \
